@@ -31,7 +31,7 @@ func (c *chunkSource) Read(p []byte) (int, error) {
 	return c.r.Read(p)
 }
 func (c *chunkSource) Seek(o int64, w int) (int64, error) { return c.r.Seek(o, w) }
-func (c *chunkSource) Close() error                         { return nil }
+func (c *chunkSource) Close() error                       { return nil }
 
 func contentClasses(r *rand.Rand, rs int) []*Data {
 	rec := rs * 512
@@ -68,7 +68,7 @@ func init() {
 	Register(&Check{
 		ID: "C03", Level: "exploration", Tech: "deterministic simulation over the configuration matrix: real pipeline end to end with simulated short-read sources, both write caches, restart (reopen) before reading, simulated clock for signature times",
 		Rule:      "cell = (compression x level x encryption x signature x record size x write cache) drawn per run from the full 8x3x3x3x7x2 matrix; per cell 3 contents from size classes {0,1,511,512,513,record-1,record,record+1,several records} x {zeros,text,random}; written through the filesystem (write cache) and through a batched Operations.Archive with short-read sources, one content replaced by an update; after a reopen every content is read back through File.Read, Operations.Restore and recovery.Fetch by position and Stat.Size must equal the length; plus non-regular (tape) codec parameters at the compression/tar-writer level; non-trivial = a non-plain cell with at least one non-empty content; distinct by cell",
-		QuickRuns: 260, QuickSecs: 70, ThoroughRuns: 12000, ThoroughSecs: 1700,
+		QuickRuns: 800, QuickSecs: 70, ThoroughRuns: 12000, ThoroughSecs: 1700,
 		Assumptions: []string{"the tape drive itself is not simulated: DriveIsRegular=false is exercised only at the codec / tar-writer parameter level", "configuration x input sampling riding on the simulator for clock, randomness, short reads, restart and crash supervision"},
 		Gen: func(r *rand.Rand, tier string, relax Relax) *Case {
 			c := &Case{Cfg: GenConfig(r, 0.03), P: map[string]int64{}, S: map[string]string{}}
